@@ -37,7 +37,9 @@ ent! {
 	c07q_ent_nz_u32: NonZeroU32, 0, 8, 7; c07q_ent_nz_i16: NonZeroI16, 0, 4, 5; c07q_ent_optionbool: OptionBool, 0, 4, 5; c07q_ent_duration: core::time::Duration, 0, 16, 15;
 	c07q_ent_range: core::ops::Range<u16>, 0, 8, 7; c07q_ent_opt: Option<u32>, 0, 8, 8; c07q_ent_res: Result<u8, u16>, 0, 8, 6;
 	c07q_ent_tup1: (u16,), 0, 4, 5; c07q_ent_tup1_vec: (Vec<u8>,), 2, 8, 7; c07q_ent_tup2: (u8, Compact<u16>), 0, 20, 19;
-	c07q_ent_arr_u32: [u32; 2], 0, 12, 11; c07q_ent_arr_opt: [Option<u8>; 2], 0, 8, 7;
+	c07q_ent_arr_u32: [u32; 2], 0, 12, 11; c07q_ent_arr_opt: [Option<u8>; 2], 0, 8, 7; c07q_ent_arr_optionbool: [OptionBool; 3], 0, 8, 7; c07q_ent_arr_compact_u8: [Compact<u8>; 2], 0, 20, 19;
+	c07q_ent_arr_bool: [bool; 3], 0, 8, 7; c07q_ent_range_compact: core::ops::Range<Compact<u32>>, 0, 20, 19; c07q_ent_range_incl_compact: core::ops::RangeInclusive<Compact<u16>>, 0, 20, 19;
+	c07q_ent_range_opt: core::ops::Range<Option<u16>>, 0, 8, 9;
 	c07q_ent_vec_u8_2: Vec<u8>, 2, 8, 7; c07q_ent_vec_u16_2: Vec<u16>, 2, 8, 8; c07q_ent_vec_opt_2: Vec<Option<u8>>, 2, 8, 8; c07q_ent_deque_2: VecDeque<u16>, 2, 8, 8;
 	c07q_ent_list_2: LinkedList<u8>, 2, 8, 7; c07q_ent_string_2: String, 2, 8, 7; c07q_ent_box: Box<u32>, 0, 8, 7; c07q_ent_rc_vec: Rc<Vec<u8>>, 2, 8, 7; c07q_ent_arc: Arc<Option<u8>>, 0, 4, 5;
 	c07t_ent_u16: u16, 0, 4, 5; c07t_ent_u64: u64, 0, 12, 11; c07t_ent_i8: i8, 0, 4, 5; c07t_ent_i128: i128, 0, 20, 19; c07t_ent_f32: f32, 0, 8, 7;
